@@ -25,6 +25,15 @@ Theorem C10_within_data : forall r t p r', sei_next r = (OK (Some (mk_msg t p)),
 Proof. exact sei_payload_within. Qed.
 Print Assumptions C10_within_data.
 
+(* a type or size coded with 0xFF extension bytes: exactly the values below 2^32 are returned; a value that does
+   not fit 32 bits is InvalidData (2^32 - 1 = 16843009 bytes of 0xFF and a last byte 0) *)
+Theorem C10_u32_overflow : forall nm n b rest t, b <> 255 ->
+  read_u32 nm (mk_bsrc (repeat 255 n ++ b :: rest) t) =
+  if 255 * N.of_nat n + b <? two32 then OK (255 * N.of_nat n + b, mk_bsrc rest t)
+  else ERR (ReaderErrorFor nm InvalidData).
+Proof. exact read_u32_boundary. Qed.
+Print Assumptions C10_u32_overflow.
+
 Theorem C10_total : forall r, no_abort (fst (sei_next r)).
 Proof. exact sei_next_total. Qed.
 Print Assumptions C10_total.
